@@ -36,7 +36,7 @@ REQUIRED_MONITORS = ["I_equals_weighted_mean", "Fq_outputs_equal_weighted_means"
                      "refuses_too_many_dispersed", "trace_covers_mesh_once", "no_stale_result"]
 REQUIRED_BUCKETS = {
     "quick": ["dims:1", "dims:2", "dims:3", "dims:4", "dims:5", "mesh:2..99", "mesh:100", "mesh:101..199",
-              "mesh:200..400", "reparameterised-model", "hollow-plugin:c-string", "hollow-plugin:c-code", "trunc:2", "trunc:1", "trunc:0", "trunc:1:parameter-without-loop-slot", "cutoff:0", "cutoff:1e-5", "cutoff:placed", "cutoff:tie",
+              "mesh:200..400", "jitter:beyond-90-degrees", "precision:single-with-placed-cutoff", "reparameterised-model", "hollow-plugin:c-string", "hollow-plugin:c-code", "trunc:2", "trunc:1", "trunc:0", "trunc:1:parameter-without-loop-slot", "cutoff:0", "cutoff:1e-5", "cutoff:placed", "cutoff:tie",
               "dim:1d", "dim:2d", "have_Fq", "no_Fq", "Fq_in_2d", "hollow", "invalid_points>0", "loops>=3_cross_chunk",
               "lane:asan", "refusal"] + ["dist:" + d for d in sas.DIST],
 }
@@ -188,6 +188,10 @@ def build_shape(i, case, rng):
             dist = ["gaussian", "uniform", "rectangle", "boltzmann"][int(rng.integers(4))]
             width = float(rng.uniform(2, 25))
             nsig = float(rng.uniform(1.5, 3))
+            if s % 3 == 2:
+                # a wide spread of orientations: jitter angles beyond +-90 degrees (their weight is |cos dtheta|)
+                width = float(rng.uniform(45, 80))
+                meta["wide_jitter"] = True
         else:
             width = float(rng.uniform(0.03, 0.25))
             nsig = float(rng.uniform(1.5, 3.0))
@@ -330,6 +334,8 @@ def run_value(case, rec):
             cutoff = c
     if meta["trunc"] == 2:
         rec.bucket("trunc:2")
+    if meta.get("wide_jitter") and dim == "2d":
+        rec.bucket("jitter:beyond-90-degrees")
     # the mean is over the mesh points inside each parameter's declared limits: the limits are read from the model's
     # own parameter table (every element of a vector parameter has the limits declared for the vector)
     declared = declared_limits(i)
@@ -431,6 +437,19 @@ def run_value(case, rec):
         nloops = sum(1 for l in lengths if l > 1)
         if nloops >= 3 and details.num_eval > 100:
             rec.bucket("loops>=3_cross_chunk")
+    # ---- the same request in single precision (models declared safe for it): the cutoff is a real-valued argument of the
+    # compiled kernel too, and a cutoff placed between two weight levels selects the same points in every precision
+    if cmode == "placed" and i.single and case.get("lane", "plain") == "plain" and np.all(np.isfinite(ref)) and st["qualifying"] >= 1:
+        m32 = sas.build(name, dtype="single!")
+        k32 = m32.make_kernel(qv)
+        I32 = np.asarray(direct_model.call_kernel(k32, dict(pars), cutoff=cutoff), float)
+        I32zero = np.asarray(direct_model.call_kernel(k32, dict(pars), cutoff=0.0), float)
+        ok32 = core.close(I32, ref, 2e-3, 1e-5*scale_I + 1e-6)
+        rec.check("I_equals_weighted_mean", ok32,
+                  None if ok32 else dict(ctx, precision="single", observed=I32, expected=ref, same_kernel_cutoff_0=I32zero,
+                                         max_rel_err=core.maxrel(I32, ref, 1e-5*scale_I + 1e-6)))
+        rec.bucket("precision:single-with-placed-cutoff")
+        k32.release()
     # ---- accounting
     nd = sum(1 for l in lengths if l != 1)
     rec.bucket("dims:%d" % min(nd, 5) if nd else "dims:0", "mesh:" + mesh_class(st["mesh_points"]),
